@@ -331,6 +331,38 @@ func bn254Subjects(r *Rng) []*subject {
 			return []any{[]bn254fr.Element(s1), []bn254fr.Element(s2), []bn254fr.Element(s3), []bn254fr.Element(d), []bn254fr.Element(cl), &ev}
 		}})
 	}
+	// package-level getters hand out copies: the caller overwrites what it was handed (the modulus, the curve generators)
+	// and the next call, and the arithmetic that reads the package's own copy, must not notice
+	for _, fname := range []string{"bn254/fr", "bls12-381/fp", "secp256k1/fp", "goldilocks", "koalabear"} {
+		f := fields[fname]
+		subs = append(subs, &subject{name: fname + ".Modulus", shared: []any{}, run: func(int) any {
+			m := f.Funcs["Modulus"].Call(nil)[0].Interface().(*big.Int)
+			txt := m.String()
+			e := f.New()
+			method(e, "SetBigInt").Call([]reflect.Value{reflect.ValueOf(new(big.Int).Add(new(big.Int).Lsh(big.NewInt(1), 300), big.NewInt(12345)))})
+			neg := f.New()
+			method(neg, "Neg").Call([]reflect.Value{e})
+			m.SetInt64(7).Lsh(m, 9) // the reply is the caller's
+			return []any{txt, digits(f.Raw(e)), digits(f.Raw(neg))}
+		}})
+	}
+	for _, cn := range []string{"bn254", "bls12-381", "secp256k1"} {
+		c := curves[cn]
+		gen, ok := c.Funcs["Generators"]
+		if !ok {
+			continue
+		}
+		subs = append(subs, &subject{name: cn + ".Generators", shared: []any{}, run: func(int) any {
+			out := gen.Call(nil)
+			res := make([]any, 0, len(out))
+			for _, o := range out {
+				p := reflect.New(o.Type())
+				p.Elem().Set(o)
+				res = append(res, p.Interface())
+			}
+			return res
+		}})
+	}
 	// element functions going through the big.Int scratch pool
 	var x bn254fr.Element
 	x.SetUint64(123456789)
